@@ -181,6 +181,13 @@ func readRecordHeaderV4(reader *checksumByteReader, compressed bool) (payloadSiz
 	return payloadSizeUncompressed, payloadSizeCompressed, recordNil == 1, nil
 }
 
+// PayloadSizeMismatchErr reports a v4 record whose payload does not decompress to the length stated in its header
+var PayloadSizeMismatchErr = fmt.Errorf("decompressed payload size mismatch")
+
+func uncompressedSizeMismatch(name string, expected uint64, actual int) error {
+	return fmt.Errorf("record in '%s' decompressed to %d bytes, its header states %d: %w", name, actual, expected, PayloadSizeMismatchErr)
+}
+
 func allocateRecordBuffer(header *Header, payloadSizeUncompressed uint64, payloadSizeCompressed uint64) (uint64, []byte) {
 	expectedBytesRead := payloadSizeUncompressed
 	if header.compressor != nil {
